@@ -138,6 +138,10 @@ def main(argv=None):
                                     next(iter(r.get("path_models", {}).values()), {})]
                 obligations.append((fn, r["cfg_raw"], ob))
 
+    extra = PR.EXTRA.get(prop)
+    if extra is not None and not a.only:
+        for fn, cfg, ob in extra(tier):
+            obligations.append((fn, cfg, ob))
     n_total = len(obligations)
     proved = refuted = unknown = 0
     by_backend = {}
